@@ -22,8 +22,9 @@ RULE = ("one case = one seeded run: a lookup configuration (collection_size in {
         "mostly off), 2-5 template files (plain / including / inheriting / namespace-importing, optionally with a cached def on a "
         "lock-free reference backend, one file that fails to compile), 2-3 worker threads with 1-4 operations each "
         "{get_template, has_template, render with a unique context, get of the broken file} and optionally a writer actor "
-        "{modify file, advance clock >= 1 s}, one scheduling strategy (random walk / PCT / pre-emption bounded <= 2 / round robin / "
-        "stall) and one pre-emption granularity (coarse: lock, I/O, construction points; line; line + opcodes in hot functions). "
+        "{modify file, advance clock >= 1 s}, one scheduling strategy (random walk biased to shared-state code / PCT / pre-emption "
+        "bounded <= 3 / round robin / stalled thread; about one run in 120 is a SWEEP: a small workload whose first thread is "
+        "pre-empted at every one of its shared-state points in turn, one schedule per point) and one pre-emption granularity (coarse: lock, I/O, construction points; line; line + opcodes in hot functions). "
         "Non-trivial = at least two threads each performing a lookup or render; distinct = hash of the ordered (thread, point) "
         "sequence actually executed.")
 COMPONENTS = {
